@@ -93,7 +93,8 @@ def itemsText (items : List Item) : String :=
   String.join (items.map fun i =>
     match i with
     | .frame f => "F{" ++ frameText f ++ "} "
-    | .error e => "E{" ++ e ++ "} ") ++ "END"
+    | .error e => "E{" ++ e ++ "} "
+    | .panic _ => "PANIC ") ++ "END"
 
 def batchText (ms : List Bytes) : String :=
   if ms.isEmpty then "[]" else ",".intercalate (ms.map hx)
